@@ -1,2 +1,3 @@
 pub mod common;
 pub mod wincon_sys;
+pub mod parser_sys;
